@@ -46,7 +46,7 @@ def generate(ctx):
         seq = []
         keys = [k for k in d["c0"]]
         for _ in range(d["nassign"]):
-            k = rng.choice(keys + (["dtype"] if kind in ("neuron", "synapse", "connection") else []))
+            k = rng.choice(keys + (["dtype"] if kind in ("neuron", "synapse", "connection", "reducer") else []))
             if k == "dt":
                 v = rng.choice(DTS)
             elif k == "batchsz":
@@ -206,8 +206,19 @@ class _Reducer:
             return observe.EMAReducer(dt, 0.3, **kw)
         return observe.CAReducer(dt, **kw)
 
+    def build(self, c, _inner=build):
+        o = _inner(self, c)
+        if c.get("dtype"):
+            o.to(torch.float64)      # converted while it holds no data: the (lazily created) history must still be float64
+        return o
+
+    def expected_out_dtype(self, c):
+        return torch.float64 if c.get("dtype") else torch.float32
+
     def set(self, o, k, v):
-        if k == "inclusive":
+        if k == "dtype":
+            o.to(torch.float64)
+        elif k == "inclusive":
             o.data_.inclusive = v      # the record's documented flag: whether the history includes the sample `duration` ago
         else:
             setattr(o, k, v)
@@ -266,7 +277,7 @@ AFFECTS = {
     "neuron": {"dt": ["dt"], "batchsz": ["batchsz", "batchedshape", "voltage_shape", "refrac_shape"], "dtype": ["dtype"]},
     "synapse": {"dt": ["dt"], "delay": ["delay"], "batchsz": ["batchsz", "current_shape"], "inplace": ["inplace"], "dtype": ["dtype"]},
     "connection": {"dt": ["dt", "synapse_dt"], "batchsz": ["batchsz", "synapse_batchsz"], "synapse": ["synapse"], "dtype": ["dtype"]},
-    "reducer": {"inclusive": ["inclusive"], "dt": ["dt", "decay"], "duration": ["duration"], "inplace": ["inplace"]},
+    "reducer": {"inclusive": ["inclusive"], "dt": ["dt", "decay"], "duration": ["duration"], "inplace": ["inplace"], "dtype": []},
     "layer": {"dt": ["connection_dt", "neuron_dt"], "batchsz": ["connection_batchsz", "neuron_batchsz"]},
 }
 
@@ -281,7 +292,7 @@ def _expect(kind, k, v, d):
         return {"dt": {"dt": v, "synapse_dt": v}, "batchsz": {"batchsz": v, "synapse_batchsz": v}, "synapse": {"synapse": SYNNAME.get(v)},
                 "dtype": {"dtype": "torch.float64"}}[k]
     if kind == "reducer":
-        return {"dt": {"dt": v}, "duration": {"duration": v}, "inplace": {"inplace": v}, "inclusive": {"inclusive": v}}[k]
+        return {"dt": {"dt": v}, "duration": {"duration": v}, "inplace": {"inplace": v}, "inclusive": {"inclusive": v}, "dtype": {}}[k]
     return {"dt": {"connection_dt": v, "neuron_dt": v}, "batchsz": {"connection_batchsz": v, "neuron_batchsz": v}}[k]
 
 
@@ -364,7 +375,13 @@ def run_case(ctx, desc):
     if bad:
         return ctx.violation(f"{kind}.state_dtype_differs_from_constructor_built_after_use",
                              f"state {bad[0]}: setter-built holds {ra.get(bad[0])}, constructor-built {rb.get(bad[0])}", desc)
+    want = ad.expected_out_dtype(cfg) if hasattr(ad, "expected_out_dtype") else None
     for i, (a, b) in enumerate(zip(xa, xb)):
+        if want is not None:
+            ctx.count("configured_dtype_checks")
+            if a.dtype != want or b.dtype != want:
+                return ctx.violation(f"{kind}.configured_dtype_not_kept", f"output {i}: configured {want}, setter-built gives {a.dtype}, "
+                                     f"constructor-built {b.dtype} (float32 observations)", desc)
         if a.dtype != b.dtype:
             return ctx.violation(f"{kind}.output_dtype_differs_from_constructor_built",
                                  f"output {i}: setter-built gives {a.dtype}, constructor-built {b.dtype}", desc)
